@@ -82,7 +82,10 @@ pub fn replay(args: &HashMap<String, String>) {
                     }
                     rep.count("step_compared");
                     if !same_class(&so, &cons) {
-                        rep.violation(json!({"property": "C06", "kind": "stepper-vs-consensus", "spelling": sp,
+                        // does the specification's stepper machine (with its documented head-form deviation) predict
+                        // exactly what the real stepper did?
+                        let explains = v.get("step").and_then(|p| Outcome::from_json(p).ok()).map(|ms| same_class(&ms, &so)).unwrap_or(false);
+                        rep.violation(json!({"property": "C06", "kind": "stepper-vs-consensus", "spelling": sp, "model_explains": explains,
                             "case": case, "stepper": so.to_json_msg(), "consensus": cons.to_json_msg()}));
                     }
                 }
@@ -139,12 +142,61 @@ pub fn drive(args: &HashMap<String, String>) {
     for i in 0..n {
         let depth = 1 + (i % 5);
         let prog = g.prog(depth, i % 3 != 0);
-        let env = match g.rng.random_range(0..4) {
+        let mut env = match g.rng.random_range(0..4) {
             0 => g.list_env(90),
             1 => g.list_env(12),
             _ => g.value(4),
         };
+        // every third case: an environment built along one of the program's path atoms
+        if i % 3 == 1 {
+            if let Some(e) = g.env_along(&prog) {
+                env = e;
+            }
+        }
         cases.push(json!({"prog": prog.to_json(), "env": env.to_json()}));
+    }
+    // boundary ladder: first/rest of (and short chains over) path atoms whose width sits at byte and word boundaries,
+    // each in an environment built along the path; and long rest chains from the root closed by a first
+    {
+        let widths = [2usize, 6, 7, 8, 9, 15, 16, 17, 23, 24, 25, 31, 32, 33, 47, 48, 56, 57, 62, 63, 64, 65, 66, 71, 72, 73];
+        for (wi, w) in widths.iter().enumerate() {
+            for variant in 0..3 {
+                // w-bit path: top bit, then all ones / all zeros / random below it
+                let mut v = num_bigint::BigUint::from(1u8) << (w - 1);
+                match variant {
+                    0 => v = (num_bigint::BigUint::from(1u8) << *w) - 1u8,
+                    1 => {}
+                    _ => {
+                        for b in 0..(w - 1) {
+                            if g.rng.random_bool(0.5) {
+                                v.set_bit(b as u64, true);
+                            }
+                        }
+                    }
+                }
+                let mut bytes = v.to_bytes_be();
+                // the spelling with a sign byte (what a positive integer of that width looks like as an atom)
+                if (wi + variant) % 4 == 3 && bytes[0] & 0x80 != 0 {
+                    bytes.insert(0, 0);
+                }
+                let p = V::A(bytes);
+                let f = |op: u8, x: V| V::list(&[V::A(vec![op]), x]);
+                let progs = vec![p.clone(), f(5, p.clone()), f(6, p.clone()), f(5, f(6, p.clone())), f(6, f(5, f(5, p.clone())))];
+                for prog in progs {
+                    if let Some(env) = g.env_along(&p) {
+                        cases.push(json!({"prog": prog.to_json(), "env": env.to_json()}));
+                    }
+                }
+            }
+        }
+        for k in [5usize, 30, 61, 62, 63, 64, 65, 70] {
+            let mut e = V::A(vec![1]);
+            for _ in 0..k {
+                e = V::list(&[V::A(vec![6]), e]);
+            }
+            let prog = V::list(&[V::A(vec![5]), e]);
+            cases.push(json!({"prog": prog.to_json(), "env": g.list_env(k + 3).to_json()}));
+        }
     }
     let jobs: Vec<Value> = cases
         .iter()
